@@ -80,7 +80,11 @@ def build(rng, macs, envs):
                 '\\caption{cap}', '\\cite{k}', '\\cite[p. 5]{k}', '\\footcite[see][p. 3]{k}',
                 '\\parencite{k}', '\\ref{r}', '\\eqref{e}', '\\hspace{1cm}', '\\phantom{X}',
                 "\\'e", '\\LaTeX{}', '\\TeX{}', '\\S{}', '\\ss{}', '\\textbackslash{}',
-                '\\begin{verbatim}\nvv\n\\end{verbatim}', '\\verb|w|', '\\\\', '--', '~']
+                '\\begin{verbatim}\nvv\n\\end{verbatim}', '\\verb|w|', '\\\\', '--', '~',
+                # \item[label] copies the punctuation mark in front of it
+                # into the label: (text in front, construct)
+                ('. ', '\\item[L]'), (', ', '\\item[Lab el]'), ('.\n', '\\item[M]'),
+                ('; ', '\\item[N]'), ('. ', '\\item[L]')]
     else:
         pool = None
     tex = pre
@@ -105,6 +109,9 @@ def build(rng, macs, envs):
     for r in range(reps):
         for call in chosen:
             tex += 'Wm%dk ' % i
+            if isinstance(call, tuple):
+                tex += call[0]
+                call = call[1]
             spans.append((len(tex), len(tex) + len(call)))
             tex += call + ' '
             i += 1
@@ -152,6 +159,10 @@ def _run_own(tier, seed, build_, res):
         # positions of marker words in the source
         marks = [(m.start(), m.end()) for m in MARK.finditer(src)]
         body0 = marks[0][0] if marks else 0
+        pref = []
+        for k, (a, b) in enumerate(spans):
+            w = 'Wm%dk' % k
+            pref.append((src.find(w) + len(w), a))
         # characters of an error mark are placed by latex_error (a mark near
         # the end of the text is split, its tail pinned to the last
         # character): C08 and C01 speak about them, not C04
@@ -180,6 +191,8 @@ def _run_own(tier, seed, build_, res):
                 return ('character %r maps to offset %d in the preamble' % (ch, o))
             if any(a <= o < b for a, b in marks):
                 continue            # a marker word (copied text)
+            if any(a <= o < b for a, b in pref) and src[o] == ch:
+                continue            # text in front of a construct (copied)
             if not any(a <= o < b for a, b in spans):
                 return ('character %r (output index %d) maps to offset %d, outside '
                         'every construct (%r)' % (ch, i, o, spans))
@@ -191,7 +204,15 @@ def _run_own(tier, seed, build_, res):
             m1 = txt.find('Wm%dk' % (k + 1), m0 + 1) if m0 >= 0 else -1
             if m0 < 0 or m1 < 0:
                 continue
+            # source text between the marker and the construct is copied:
+            # each of its characters at most once, at its own offset
+            e0 = src.find('Wm%dk' % k) + len('Wm%dk' % k)
+            copied = set()
             for i in range(m0 + len('Wm%dk' % k), m1):
+                o = pos[i] - 1
+                if e0 <= o < a and src[o] == txt[i] and o not in copied:
+                    copied.add(o)
+                    continue
                 if not txt[i].isspace() and i not in errm and not (a < pos[i] <= b):
                     return ('use %d of %r: character %r maps to %d, outside its '
                             'span %d..%d' % (k, src[a:b], txt[i], pos[i], a + 1, b))
